@@ -12,3 +12,38 @@ def predicate(key):
         PREDICATES[key] = fn
         return fn
     return deco
+
+
+# ------------------------------------------------------------------------------------------------
+# PIT masker-sharing findings (C01 / C07 / C09): identified by the *taint kinds* that the R-alive
+# reference derived from the observed masks and the program's dataflow (vf/pitlib.r_alive), never
+# by the generator's own labels.  Only the direct consequences of an inconsistent mask assignment
+# are excused (the inconsistency itself, crashes and output mismatches of a network that contains
+# it); per-layer width reports of untainted layers are never excused.
+# ------------------------------------------------------------------------------------------------
+KNOWN_TAINTS = {
+    'add:cat': 'pit-add-of-concat-not-frozen',
+    'tcat:cat': 'pit-add-of-concat-not-frozen',
+    'add:fixed': 'pit-excluded-layer-not-frozen',
+    'tcat:fixed': 'pit-excluded-layer-not-frozen',
+    'dw:fixed': 'pit-excluded-layer-not-frozen',
+    'excluded-consumer': 'pit-excluded-layer-not-frozen',
+    'dw:cat': 'pit-dw-after-concat-no-masker',
+}
+TAINT_EXCUSABLE = {'mask-consistency', 'export-crash', 'exported-forward-crash', 'output-mismatch',
+                   'pit-forward-crash', 'cost-crash', 'unusable-after-conversion'}
+
+
+def _taint_pred(key):
+    def pred(v):
+        if v['monitor'] not in TAINT_EXCUSABLE:
+            return False
+        taints = (v.get('detail') or {}).get('taints') or []
+        if not taints or any(t not in KNOWN_TAINTS for t in taints):
+            return False
+        return key in {KNOWN_TAINTS[t] for t in taints}
+    return pred
+
+
+for _k in set(KNOWN_TAINTS.values()):
+    PREDICATES[_k] = _taint_pred(_k)
